@@ -85,9 +85,15 @@ func (x *extTable) Type(s string) (reflect.Type, error) {
 	return nil, fmt.Errorf("ext: no type %s", s)
 }
 
+// c12NilEnvTok: a nil *env.Env as a value - has the type of a module and is none (to the model just another token)
+const c12NilEnvTok = 777
+
 func tokValue(n int, addr bool) reflect.Value {
 	if n == 0 {
 		return env.NilValue
+	}
+	if n == c12NilEnvTok {
+		return reflect.ValueOf((*env.Env)(nil))
 	}
 	if addr {
 		p := reflect.New(tokType)
@@ -184,6 +190,9 @@ func (r *c12Runner) canonVal(v reflect.Value) *c12Val {
 			return &c12Val{Tok: 0, Addr: true, Env: -1}
 		}
 	case *env.Env:
+		if x == nil {
+			return &c12Val{Tok: c12NilEnvTok, Env: -1}
+		}
 		return &c12Val{Tok: -1, Env: r.idOf(x)}
 	}
 	return &c12Val{Tok: -3, Env: -1}
@@ -475,6 +484,9 @@ func c12Gen(rnd *Rand, n int) []c12Op {
 		if rnd.Chance(1, 12) {
 			return &c12Val{Tok: 0, Addr: true, Env: -1}
 		}
+		if rnd.Chance(1, 25) {
+			return &c12Val{Tok: c12NilEnvTok, Env: -1}
+		}
 		return &c12Val{Tok: 1 + rnd.Intn(6), Addr: rnd.Chance(1, 4), Env: -1}
 	}
 	chainLen := func(i int) int {
@@ -668,6 +680,10 @@ func c12Directed() [][]c12Op {
 		{{K: "NewRoot"}, {K: "NewModule", E: 0, S: "a"}, {K: "NewEnv", E: 0}, {K: "Define", E: 2, S: "a", V: tok(1)},
 			{K: "Path", E: 2, P: []string{"a"}}},
 		{{K: "NewRoot"}, {K: "NewModule", E: 0, S: "a.b"}, {K: "Symbols", E: 0}},
+		// a binding that holds a nil *env.Env has the type of a module and is none: a path through it is an error
+		{{K: "NewRoot"}, {K: "Define", E: 0, S: "m", V: tok(c12NilEnvTok)}, {K: "Path", E: 0, P: []string{"m"}}, {K: "Path", E: 0, P: []string{"m", "a"}}, {K: "Get", E: 0, S: "m"}},
+		{{K: "NewRoot"}, {K: "NewModule", E: 0, S: "a"}, {K: "Define", E: 1, S: "m", V: tok(c12NilEnvTok)}, {K: "Path", E: 0, P: []string{"a", "m"}},
+			{K: "Path", E: 0, P: []string{"a", "m", "b"}}, {K: "NewEnv", E: 0}, {K: "Define", E: 2, S: "a", V: tok(c12NilEnvTok)}, {K: "Path", E: 2, P: []string{"a", "m"}}},
 		{{K: "NewRoot"}, {K: "Define", E: 0, S: "a", V: tok(1)}, {K: "Copy", E: 0}, {K: "Set", E: 1, S: "a", V: tok(2)},
 			{K: "Get", E: 0, S: "a"}, {K: "Delete", E: 0, S: "a"}, {K: "Get", E: 1, S: "a"}},
 		{{K: "NewRoot"}, {K: "Define", E: 0, S: "a", V: tok(1)}, {K: "NewEnv", E: 0}, {K: "DeepCopy", E: 1},
@@ -679,6 +695,66 @@ func c12Directed() [][]c12Op {
 			{K: "NewEnv", E: 0}, {K: "Type", E: 1, S: "int64"}, {K: "Type", E: 1, S: "float64"}, {K: "Addr", E: 1, S: "x"},
 			{K: "Addr", E: 1, S: "a"}, {K: "Set", E: 1, S: "a", V: tok(4)}},
 	}
+}
+
+// c12InvalidRequests: requests outside the model's value universe (the zero reflect.Value as the value to bind), judged on the
+// implementation alone by the property's own rule: an error, every scope unchanged, never a panic - now or at a later read
+func c12InvalidRequests() []map[string]interface{} {
+	var out []map[string]interface{}
+	bad := func(why string) { out = append(out, map[string]interface{}{"case": -1, "why": why}) }
+	guard := func(what string, f func()) {
+		defer func() {
+			if p := recover(); p != nil {
+				bad(what + " panicked: " + fmt.Sprint(p))
+			}
+		}()
+		f()
+	}
+	for _, how := range []string{"DefineValue", "DefineGlobalValue", "SetValue", "SetValue through a child"} {
+		how := how
+		guard(how+" with the zero reflect.Value", func() {
+			root := env.NewEnv()
+			root.Define("a", int64(1))
+			child := root.NewEnv()
+			child.Define("b", int64(2))
+			var err error
+			switch how {
+			case "DefineValue":
+				err = child.DefineValue("z", reflect.Value{})
+			case "DefineGlobalValue":
+				err = child.DefineGlobalValue("z", reflect.Value{})
+			case "SetValue":
+				err = child.SetValue("b", reflect.Value{})
+			default:
+				err = child.SetValue("a", reflect.Value{})
+			}
+			if err == nil {
+				bad(how + " accepts the zero reflect.Value without an error")
+			}
+			for _, e := range []*env.Env{root, child} {
+				for _, sym := range []string{"a", "b", "z"} {
+					e.Get(sym)
+					e.GetValue(sym)
+					e.Addr(sym)
+					e.GetEnvFromPath([]string{sym})
+				}
+				_ = e.String()
+				e.Copy()
+				e.DeepCopy()
+				e.GetValueSymbols()
+			}
+			if v, _ := child.Get("a"); v != int64(1) {
+				bad(how + " with the zero reflect.Value changed the binding of a: " + fmt.Sprint(v))
+			}
+			if v, _ := child.Get("b"); v != int64(2) {
+				bad(how + " with the zero reflect.Value changed the binding of b: " + fmt.Sprint(v))
+			}
+			if _, err := child.Get("z"); err == nil {
+				bad(how + " with the zero reflect.Value created a binding")
+			}
+		})
+	}
+	return out
 }
 
 func c12Main(seed uint64, n int, outDir string, replay string) error {
@@ -753,6 +829,7 @@ func c12Main(seed uint64, n int, outDir string, replay string) error {
 		}
 		seen[string(b)] = true
 	}
+	implViol = append(implViol, c12InvalidRequests()...)
 	meta := map[string]interface{}{
 		"cases": len(cases), "stats": stats,
 		"distinct_nontrivial": nontrivial, "impl_violations": implViol,
